@@ -341,10 +341,14 @@ func (f *Fn) reassigned(o types.Object) bool {
 					}
 				}
 			case *ast.RangeStmt:
-				for _, e := range []ast.Expr{s.Key, s.Value} {
-					if id, ok := e.(*ast.Ident); ok {
-						if o := f.ObjOf(id); o != nil {
-							f.nAssign[o] += 2 // a new value every iteration
+				// loop variables have one value per iteration: two reads in the body see the same value, and the
+				// merge at the loop head forgets what was known about the previous element
+				if s.Tok == token.ASSIGN {
+					for _, e := range []ast.Expr{s.Key, s.Value} {
+						if id, ok := e.(*ast.Ident); ok {
+							if o := f.ObjOf(id); o != nil {
+								f.nAssign[o] += 2
+							}
 						}
 					}
 				}
